@@ -5,7 +5,9 @@ A case is {"nets": [netspec, ...], "ops": [op, ...]} (optionally "ref": "spawn",
 netspec = {"recipe": <netgen recipe>, "stress": <factor applied to load p/q>, "zones": <bool: bus.zone = z0/z1>}
 ops (indices are resolved modulo the number of live instances / nets inside `check`):
   {"op": "new", "defaults": bool}                                   Diagnostic(add_default_functions=defaults)
-  {"op": "register", "inst": i, "target": "any"|"own", "fn": kind, "args": None|[names], "name": None|str}
+  {"op": "register", "inst": i, "target": "any"|"own", "fn": kind, "args": None|[names], "name": None|str,
+   "share": None|k}    register_function(<new object of class kind>, ...) or, with share=k, the k-th function OBJECT the
+                       user created earlier (registered once more on this or on another Diagnostic instance)
   {"op": "diagnose", "inst": i, "net": j, "kwargs": {...}, "report_style": None|"compact"|"detailed",
    "warnings_only": bool, "return_result_dict": bool}               instance.diagnose_network(net, ...)
   {"op": "helper", "net": j, "kwargs": {...}}                       pandapower.diagnostic.diagnostic(net, report_style=None, ...)
@@ -29,6 +31,16 @@ the history cannot have polluted:
   The replay replays/C30/selfcheck-spawn-reference.json ("ref": "spawn") is run first on every check and compares the
   in-process references of its history with references computed in really fresh `spawn` processes (one per call); a
   disagreement is reported as harness/reference-disagreement.
+User-created function objects: the reference registers FRESH objects of the same classes; entries of one instance that are
+the same object stay one (fresh) object, so a difference can only come from what an object (or the net) carries over from
+earlier calls / other instances (signature result-differs/hidden-state/<results|errors>:<function class>). A separate
+report() of an instance is not judged when another instance has run one of its (user-shared) function objects in the
+meantime: the objects keep what their report needs (design of DiagnosticFunction.report), the outcome is not specified.
+Generated shapes (scenario drawn per case): random histories; "reuse" = user-created objects of every DiagnosticFunction
+class registered on an instance without defaults (or on two instances), called with explicit options and later without them
+(TUNED: option/class/hook/huge-load combinations where the dropped option decides the verdict); "implausible" = an
+in-service line / impedance / xward / trafo / trafo3w made implausible by value (or flagged through thresholds) with a
+converging or non-converging base power flow (huge load at a supplied bus, max_iteration=1, run hooks).
 When the actual outcome differs from the reference, the call is replayed once more with the kwargs / function list the
 instance REALLY used (`_effective`): if that reproduces the outcome, the difference is explained by the observed pollution
 (signature result-differs/<origin of the pollution>), otherwise result-differs/unexplained|hidden-state/<function>.
@@ -53,18 +65,26 @@ SHRINK_S = {"quick": 10, "thorough": 60}
 DEADLINE_S = {"quick": 900, "thorough": 3000}
 RULE = ("Hypothesis draws 1-3 small network recipes (<=6 buses, all element kinds, optional x30/x300 load stress and "
         "bus zones) and a history of 3-10 JSON operations with >=2 calls (new Diagnostic with/without default functions, "
-        "register_function of harness-defined echo/count functions or the documented library functions "
-        "DeviationFromStdType/SlackGenPlacement/Overload/ImplausibleImpedanceValues with all/named/no kwargs, diagnose_network with 0-3 drawn options "
+        "register_function of harness-defined echo/count functions or of every DiagnosticFunction class of "
+        "diagnostic_functions.py with all/named/no kwargs, as a new object or as an object the user registered before (same or "
+        "other instance), diagnose_network with 0-3 drawn options "
         "(diagnostic thresholds, documented docstring names, power-flow kwargs such as max_iteration=1, stateless "
         "`run` hooks that raise LoadflowNotConverged depending on the net state), the helper diagnostic(), report()); "
         "a fifth of the histories ends with 'A diagnoses, B diagnoses with other thresholds, A reports'; "
         "a quarter of the histories is leak-free by construction on the unrepaired tree (options only in the last call, "
-        "registrations only on instances without defaults). check interprets the list against real objects and an "
+        "registrations only on instances without defaults). 3/8 of the cases are 'reuse' histories (1-4 user-created function "
+        "objects on an instance without defaults, optionally the same objects on a second instance; first call with explicit "
+        "own/power-flow options, later calls without them, on a network that gets a huge load or with run hooks so that the "
+        "dropped option decides the verdict), 2/8 'implausible' histories (line/impedance/xward/trafo/trafo3w implausible by "
+        "value or by thresholds x base power flow converges / fails by huge load, max_iteration=1, run hook). check interprets the list against real objects and an "
         "abstract model; after every step: module-level containers == pristine copies, a new instance has the pristine "
         "defaults, instances not operated on keep kwargs/functions, result/errors/raised exception/report text of every "
         "diagnose_network == reference for (net, model function list, pristine defaults + explicit kwargs of that call), "
-        "input tables unchanged (oracles.snapshot) also when inner power flows fail. "
-        "Non-trivial = >=2 instances exist (helper counts) and >=1 non-default option or registration happened before a "
+        "input tables unchanged (oracles.snapshot: every non-result DataFrame incl. ward/xward/impedance/switch) also when "
+        "inner power flows fail. Labels measure the shapes (implausible-<type>+base-pf-fails|converges, "
+        "reused|shared-function-instance/explicit-then-default, explicit-then-default/option-matters, per class). "
+        "Non-trivial = (>=2 instances exist (helper counts) or one instance is called twice) and >=1 non-default option or "
+        "registration happened before a "
         "later diagnose/helper/report step whose outcome was compared with the reference; distinct by case hash.")
 ASSUMPTIONS = ["reference = in-process run on pristine module state + fresh function objects + fresh net copy "
                "(validated against a fresh spawn process by a replay on every run)",
@@ -73,6 +93,8 @@ ASSUMPTIONS = ["reference = in-process run on pristine module state + fresh func
                "(results, errors, report text) are judged, not their attributes",
                "result tables (res_*), _ppc, converged flags may change: 'network unchanged' = input tables, std_types, "
                "user_pf_options, sn_mva/f_hz/name (oracles.snapshot)",
+               "a separate report() of an instance whose user-shared function object was run by another instance since its last "
+               "diagnose_network is not judged (objects keep per-call report state by design)",
                "exceptions other than ValueError(missing named argument)/RuntimeError(report before diagnose) escaping "
                "diagnose_network/report are compared with the reference, not forbidden"]
 TECHNIQUE = "property-based testing: operation histories (Hypothesis lists) + abstract model / pristine differential reference"
@@ -105,7 +127,8 @@ KW = {
     "trafo_model": ["pi"],
     "tolerance_mva": [1e-4],
     "enforce_q_lims": [True],
-    "run": ["always_fail", "ok_if_load_scaled", "ok_if_gen_scaled", "ok_if_switches_closed", "ok_if_no_capacitance"],
+    "run": ["always_fail", "ok_if_load_scaled", "ok_if_gen_scaled", "ok_if_switches_closed", "ok_if_no_capacitance",
+            "ok_if_low_capacitance"],
     "my_option": [1, 2],
 }
 KW_WEIGHT = {"max_iteration": 5, "run": 4, "min_r_ohm": 3, "min_x_ohm": 3, "overload_scaling_factor": 3,
@@ -144,6 +167,11 @@ PF_OPTS = [{"max_iteration": 1}, {"run": "always_fail"}, {"run": "ok_if_load_sca
 # kwargs given to BOTH calls of an explicit-then-default pair: make the base power flow of the second call fail, too
 COMMON_OPTS = [{}, {}, {"run": "ok_if_load_scaled"}, {"run": "ok_if_load_scaled"}, {"run": "ok_if_gen_scaled"},
                {"run": "ok_if_no_capacitance"}, {"run": "always_fail"}, {"run": "ok_if_switches_closed"}, {"max_iteration": 1}]
+# kwargs of both calls of a "tuned" explicit-then-default pair ({} = the network gets a huge load: real non-convergence):
+# the base power flow of the second call fails and the verdict of Overload / WrongLineCapacitance depends on the factor
+TUNED_COMMON = [{}, {}, {}, {"run": "ok_if_load_scaled"}, {"run": "ok_if_load_scaled"}, {"run": "ok_if_gen_scaled"},
+                {"run": "ok_if_low_capacitance"}, {"run": "ok_if_low_capacitance"}, {"run": "ok_if_no_capacitance"},
+                {"max_iteration": 1}, {"run": "always_fail"}, {"run": "ok_if_switches_closed"}]
 # thresholds that flag ordinary elements as implausible
 THRESHOLDS = [{"max_r_ohm": 1.0, "max_x_ohm": 1.0}, {"min_x_ohm": 5.0}, {"min_r_ohm": 5.0, "min_x_ohm": 5.0}, {"max_x_ohm": 10.0}]
 IMPL_TYPES = ["xward", "xward", "line", "impedance", "trafo", "trafo3w"]
@@ -362,8 +390,15 @@ def _merge(*dicts):
 def _reuse_prefix(draw, nets):
     """user-created function objects registered on an instance without defaults (or on two instances), called with
     explicit options and later without them"""
-    n_fn = draw(st.sampled_from([1, 1, 2, 3]))
-    classes = [draw(st.sampled_from(list(OWN_OPTS) * 2 + PF_CLASSES + LIB_CLASSES)) for _ in range(n_fn)]
+    tuned = draw(st.booleans())
+    if tuned:
+        # all classes that read options of their own at once (+ 0-2 others); every one gets a non-default own option in the
+        # first call; both calls share kwargs / a huge load under which the dropped options decide the verdicts
+        classes = list(draw(st.permutations(sorted(OWN_OPTS)))) + \
+            [draw(st.sampled_from(LIB_CLASSES)) for _ in range(draw(st.integers(0, 2)))]
+    else:
+        n_fn = draw(st.sampled_from([1, 2, 2, 3, 4]))
+        classes = [draw(st.sampled_from(PF_CLASSES + LIB_CLASSES)) for _ in range(n_fn)]
     if draw(st.integers(0, 4)) == 4:
         classes.append("echo")
     two = draw(st.integers(0, 2)) == 2
@@ -378,21 +413,31 @@ def _reuse_prefix(draw, nets):
                         "args": draw(st.sampled_from([None, None, None, []])), "name": None, "share": k})
     # explicit options of the first call: own options of the classes, power flow options, anything
     k1 = {}
-    for c in classes:
-        pool = list(OWN_OPTS.get(c, [])) * 3 + (PF_OPTS if c in PF_CLASSES else []) + [{"my_option": 1}]
-        k1.update(draw(st.sampled_from(pool)))
-    common = dict(draw(st.sampled_from(COMMON_OPTS)))
-    for k in k1:
-        common.pop(k, None)
     j1 = draw(st.integers(0, len(nets) - 1))
-    j2 = j1 if draw(st.integers(0, 3)) else draw(st.integers(0, len(nets) - 1))
-    if not common or draw(st.integers(0, 2)) == 2:
+    if tuned:
+        for c in classes:
+            if c in OWN_OPTS:
+                k1.update(draw(st.sampled_from(OWN_OPTS[c])))
+        common = dict(draw(st.sampled_from(TUNED_COMMON)))
+        j2 = j1
+        huge = not common or ("run" not in common and draw(st.integers(0, 2)) == 2)
+    else:
+        for c in classes:
+            pool = list(OWN_OPTS.get(c, [])) * 3 + (PF_OPTS if c in PF_CLASSES else []) + [{"my_option": 1}]
+            k1.update(draw(st.sampled_from(pool)))
+        common = dict(draw(st.sampled_from(COMMON_OPTS)))
+        for k in k1:
+            common.pop(k, None)
+        # every second history: the later call is on ANOTHER network (what an object keeps of a network must not matter)
+        j2 = j1 if draw(st.booleans()) else (j1 + draw(st.integers(1, max(1, len(nets) - 1)))) % len(nets)
+        huge = not common or draw(st.integers(0, 2)) == 2
+    if huge:
         _huge_load(draw, nets[j2])        # the second call sees a really non-converging network
     second = 1 if two else 0
     ops.append(_diag(0, j1, _merge(common, k1)))
     if draw(st.integers(0, 3)) == 3:
         ops.append(draw(_op(kinds=("diagnose", "helper", "new"))))
-    ops.append(_diag(second, j2, common, style=draw(st.sampled_from([None, None, "compact"]))))
+    ops.append(_diag(second, j2, common, style=draw(st.sampled_from([None, None, "compact", "detailed"]))))
     if draw(st.integers(0, 2)) == 2:
         ops.append(_diag(0, j1, common))
     if draw(st.integers(0, 3)) == 3:
@@ -457,11 +502,12 @@ def _implausible_case(draw):
 
 @st.composite
 def _case(draw, tier):
-    scenario = draw(st.sampled_from(["random", "random", "random", "reuse", "reuse", "implausible", "implausible"]))
+    scenario = draw(st.sampled_from(["random", "random", "random", "reuse", "reuse", "reuse", "implausible", "implausible"]))
     if scenario == "implausible":
         return draw(_implausible_case())
     n_nets = draw(st.sampled_from([1, 1, 2, 2, 3]))
     if scenario == "reuse":
+        n_nets = max(n_nets, draw(st.integers(1, 2)))
         # mostly networks without out-of-service elements (netgen's in_service draws leave few supplied buses otherwise)
         nets = [draw(_netspec(draw(st.sampled_from([PROFILE_1L, PROFILE_1L, PROFILE_2L, PROFILE_3L, PROFILE]))))
                 for _ in range(n_nets)]
@@ -571,6 +617,8 @@ def _env():
                 ok = bool(net.switch.closed.values.all())
             elif k == "ok_if_no_capacitance":
                 ok = bool((net.line.c_nf_per_km.values <= 1.0).all())
+            elif k == "ok_if_low_capacitance":
+                ok = bool((net.line.c_nf_per_km.values <= 5.0).all())
             else:
                 raise KeyError(k)
             if not ok:
@@ -1200,6 +1248,8 @@ def _run_history(case, res, env):
                     uid = user_ids[id(fobj)]
                     keys = set(exp_kw) if arg_names is None else {a for a in arg_names if a in exp_kw}
                     nondefault = {k for k in keys if k not in P_ARGS or _same(_canon(exp_kw[k]), _canon(P_ARGS[k]))}
+                    if any(j0 != j for _, _, j0, _, _ in obj_calls.get(uid, [])):
+                        res.label("user-function-object/called-on-another-network-before")
                     for p0, keys0, j0, _, _ in obj_calls.get(uid, []):
                         if keys0 - nondefault:
                             res.label("%s-function-instance/explicit-then-default" % ("reused" if p0 == inst_pos else "shared"))
@@ -1382,7 +1432,10 @@ def _run_history(case, res, env):
     res.label("option-or-registration-seen" if st_["polluting_before"] else "history-without-options")
     if not seen:
         res.label("no-failure")
-    res.nontrivial = bool(st_["n_instances"] >= 2 and st_["compared_after"])
+    twice = any(sum(1 for p, _ in kw_history if p == k) >= 2 for k in range(len(insts)))
+    if twice:
+        res.label("instance-called-twice")
+    res.nontrivial = bool((st_["n_instances"] >= 2 or twice) and st_["compared_after"])
 
 
 def _first_text_diff(a, b):
